@@ -10,6 +10,8 @@ seeds = sorted(p.parent for p in Path('/verif/seeded').glob('*/meta.json') if no
 
 def one(d):
     m = json.load(open(d / 'meta.json'))
+    if m.get('harmless'):
+        return d.name, [('harmless', 0, 'concrete', 'skipped here: harmless refactorings are run against every check by seed2_eval')]
     checks = m.get('caught_by') or [m.get('breaks_property', d.name[:3])]
     tree = f'/tmp/s2w/rv-{d.name}'
     subprocess.run(f'git -C /repo worktree remove --force {tree}', shell=True, capture_output=True)
